@@ -350,8 +350,11 @@ fn equal_month(sn1: &SnapshotFile, sn2: &SnapshotFile) -> bool {
 ///
 /// Whether the week of the snapshots is equal
 fn equal_week(sn1: &SnapshotFile, sn2: &SnapshotFile) -> bool {
-    equal_year(sn1, sn2)
-        && sn1.time.clone().iso_week_date().week() == sn2.time.clone().iso_week_date().week()
+    let (week1, week2) = (
+        sn1.time.clone().iso_week_date(),
+        sn2.time.clone().iso_week_date(),
+    );
+    week1.year() == week2.year() && week1.week() == week2.week()
 }
 
 /// Evaluate the day of the given snapshots
